@@ -49,8 +49,11 @@ class Obligation:
 
 
 class State:
+    shard = None                         # (k, N): explore only alternatives a with a % N == k at wide branches
+
     def __init__(self, choices):
         self.choices = list(choices)     # list of (bool value, forced)
+        self.sharded = False
         self.pos = 0
         self.pc = []                     # z3 Bool terms (assumptions + branch conditions)
         self.obligs = []
@@ -61,6 +64,8 @@ class State:
         self.trace = []                  # human-readable path notes
         self.decisions = 0
         self.covers = set()
+        self.qf = []                     # quantifier-free part of pc (for cheap range proofs)
+        self.range_facts = []            # (array term, lo, hi): every element of the array is within [lo, hi)
         self.assumed_calls = []          # contracts applied (for the report)
         self.unknown_calls = []
         self.ghost = {}
@@ -75,21 +80,28 @@ class State:
         return z3.Int(self.fresh_name(base))
 
     # ---- assumptions
-    def assume(self, cond):
+    def assume(self, cond, heavy=False):
+        """heavy=True: definitional axioms (uninterpreted folds...) that are needed to discharge obligations but
+        are kept out of the incremental feasibility solver (feasibility then over-approximates: sound)"""
         c = zbool(cond) if not isinstance(cond, z3.BoolRef) else cond
-        c = z3.simplify(c)
+        if heavy:
+            self.pc.append(c)
+            return
+        c = V.ssimplify(c)
         if z3.is_true(c):
             return
         if z3.is_false(c):
             raise PathAbort()
         self.pc.append(c)
         self.solver.add(c)
+        if not _has_quant(c):
+            self.qf.append(c)
 
     def side_assume_range(self, x, lo, hi):
         """operands of a generic bitwise op must be in range for the BV encoding to be exact:
         recorded as an obligation-like check: if not provable the op is out of reach."""
         c = z3.And(x >= lo, x < hi)
-        if z3.is_true(z3.simplify(c)):
+        if z3.is_true(V.ssimplify(c)):
             return
         self.solver.push()
         self.solver.add(z3.Not(c))
@@ -110,8 +122,21 @@ class State:
         raise Unsupported('& with two possibly negative operands')
 
     def provable(self, c):
-        c = z3.simplify(c)
+        c = V.ssimplify(c)
         if z3.is_true(c):
+            return True
+        # cheap attempt: quantifier-free assumptions + range facts instantiated at the array reads occurring in c
+        s2 = z3.Solver()
+        s2.set('timeout', 1000)
+        for a in self.qf:
+            s2.add(a)
+        if self.range_facts:
+            for sel in _selects(c):
+                for (arr, lo, hi) in self.range_facts:
+                    if sel.arg(0).eq(arr):
+                        s2.add(sel >= lo, sel < hi)
+        s2.add(z3.Not(c))
+        if s2.check() == z3.unsat:
             return True
         self.solver.push()
         self.solver.add(z3.Not(c))
@@ -130,7 +155,7 @@ class State:
             return cond
         if isinstance(cond, (SBool, SInt)):
             cond = zbool(cond)
-        cond = z3.simplify(cond)
+        cond = V.ssimplify(cond)
         if z3.is_true(cond):
             return True
         if z3.is_false(cond):
@@ -161,15 +186,28 @@ class State:
         t = cond if c else z3.Not(cond)
         self.pc.append(t)
         self.solver.add(t)
+        if not _has_quant(t):
+            self.qf.append(t)
         return c
 
     def branch(self, n, label=''):
         """non-deterministic n-way choice (loop cuts, callee outcomes); every alternative is explored"""
         if self.pos < len(self.choices):
             c = self.choices[self.pos][0]
+            if self.choices[self.pos][1] in ('branch', 'branch-alt') and len(self.choices[self.pos]) > 3:
+                self.sharded = True
         else:
-            c = 0
-            self.choices.append((0, 'branch', n))
+            alts = list(range(n))
+            if self.shard is not None and n >= 16 and not self.sharded:
+                k, N = self.shard
+                alts = [a for a in alts if a % N == k]
+                self.sharded = True
+                if not alts:
+                    raise PathAbort()
+                self.choices.append((alts[0], 'branch', n, alts))
+            else:
+                self.choices.append((0, 'branch', n))
+            c = alts[0]
         self.pos += 1
         return c
 
@@ -202,6 +240,35 @@ class State:
         self.inputs.append((name, 'map', (dom, val, m.elem)))
 
 
+def _has_quant(t):
+    seen = set()
+    stack = [t]
+    while stack:
+        x = stack.pop()
+        if x.get_id() in seen:
+            continue
+        seen.add(x.get_id())
+        if z3.is_quantifier(x):
+            return True
+        stack.extend(x.children())
+    return False
+
+
+def _selects(t):
+    out, seen, stack = [], set(), [t]
+    while stack:
+        x = stack.pop()
+        if x.get_id() in seen:
+            continue
+        seen.add(x.get_id())
+        if z3.is_quantifier(x):
+            continue
+        if z3.is_app(x) and x.decl().kind() == z3.Z3_OP_SELECT:
+            out.append(x)
+        stack.extend(x.children())
+    return out
+
+
 class UnitResult:
     def __init__(self, name):
         self.name = name
@@ -218,15 +285,17 @@ class UnitResult:
         self.inputs_decl = None
 
 
-def explore(unit, make_E, max_paths=20000):
+def explore(unit, make_E, max_paths=20000, shard=None):
     """run unit(E) over all feasible paths; returns (paths, [State...]) info"""
     res = UnitResult(getattr(unit, 'name', getattr(unit, '__name__', 'unit')))
     stack = [[]]
     t0 = time.time()
     states = []
+    seen_obl = set()
     while stack:
         choices = stack.pop()
         st = State(choices)
+        st.shard = shard
         V._CUR[0] = st
         V.Obj._n[0] = 0
         E = make_E(st)
@@ -250,15 +319,22 @@ def explore(unit, make_E, max_paths=20000):
         for k in range(len(choices), len(st.choices)):
             ent = st.choices[k]
             if ent[1] == 'branch':
-                for alt in range(1, ent[2]):
-                    stack.append(st.choices[:k] + [(alt, 'branch-alt', ent[2])])
+                alts = ent[3][1:] if len(ent) > 3 else range(1, ent[2])
+                for alt in alts:
+                    stack.append(st.choices[:k] + [(alt, 'branch-alt', ent[2]) + ((ent[3],) if len(ent) > 3 else ())])
             elif not ent[1]:
                 stack.append(st.choices[:k] + [(not ent[0], False)])
         # obligations recorded before a path was cut (loop cut, assume(False)) were recorded under the
         # path condition of that moment and count as well
-        res.obligs.extend(st.obligs)
+        if shard is not None and shard[0] != 0 and not st.sharded:
+            st.obligs = []               # a path that meets no wide branch is reported by shard 0 only
         for o in st.obligs:
             o.meta['_inputs'] = st.inputs
+            key = (o.label, tuple(c.get_id() for c in o.pc), o.claim.get_id())
+            if key in seen_obl:          # the same obligation re-derived on a sibling path (terms are hash-consed)
+                continue
+            seen_obl.add(key)
+            res.obligs.append(o)
         if finished:
             res.paths += 1
             res.covers |= st.covers
